@@ -19,6 +19,56 @@ RULE = (execprop.RULE + "; plus study-level runs of staged parameterised specifi
         "processes (exit codes and deaths by signal) through `maestro run -fg` as in C19")
 
 
+def declared_gating_case(ctx, k):
+    """Every dependency the specification declares - the same-combination instance of an ordinary parent, every
+    instance of a `_*` parent - must gate the launch.  Generated specifications are staged; where the staged
+    graph does not wait for a declared parent, the real graph is driven through the history that shows it
+    (everything else finishes, that parent keeps running) and judged by whether the child is launched."""
+    import expprop
+    import scripted as S
+    import studysim as SS
+    c = expprop.one_case(ctx, "dg%d" % k, adversarial=False, pgen=False,
+                         monitor=lambda spec, study, params, steps, dag, hash_ws, root:
+                         SS.expansion_monitor(params, steps, dag, hash_ws))
+    if c is None or c.dag is None or SS.LAST_DECLARED["edges"] is None:
+        return None
+    if any("instance-name-collision" in d for _cl, d in c.monitor):
+        return None
+    dag = c.dag
+    names = [n for n in dag.values if n != "_source"]
+    gaps = sorted((p, ch) for p, ch in SS.LAST_DECLARED["edges"]
+                  if p != "_source" and ch in dag.values and p in dag.values and p not in dag._dependencies[ch])
+    data = {"kind": "declared-gating", "spec": c.data["spec"], "hash_ws": c.data["hash_ws"], "gaps": gaps[:3]}
+    if not gaps:
+        return Case(data, [], [], [], False)
+    p, ch = gaps[0]
+    S.install()
+    try:
+        dag.set_adapter({"type": "scripted"})
+        S.WORLD.reset(sched={nm: True for nm in names})
+        history, mon = [], []
+        for _poll in range(3 * len(names) + 12):
+            reports = [(nm, "RUNNING" if nm in (p, ch) else "FINISHED") for nm in list(dag.in_progress)]
+            S.WORLD.poll_code, S.WORLD.poll_calls, S.WORLD.poll_reports = "OK", 0, reports
+            S.WORLD.events = []
+            try:
+                verdict = dag.execute_ready_steps().name
+            except Exception as e:      # noqa
+                verdict = "RAISE:%s" % type(e).__name__
+            history.append({"reports": reports, "returned": verdict})
+            launched = [ev[1] for ev in S.WORLD.events if ev[0] in ("submit", "local")]
+            if ch in launched and dag.values[p].status.name != "FINISHED":
+                mon.append(("launch-after-deps", "staged study: the specification makes %s depend on %s; %s was "
+                            "launched while %s was still %s" % (ch, p, ch, p, dag.values[p].status.name)))
+                break
+            if verdict != "RUNNING" or not dag.in_progress - {p}:
+                break
+        data["history"] = history
+        return Case(data, [], [], mon, True)
+    finally:
+        S.install()
+
+
 def run(ctx, escalated=False):
     quick = ctx.tier == "quick" and not escalated
     cases = execprop.run(ctx, "C01", escalated, finish=False)
@@ -42,6 +92,14 @@ def run(ctx, escalated=False):
         mon = [("launch-after-deps", d) for cl, d in c.monitor if cl == "order"]
         extra.append(Case(dict(c.data, kind="local-processes"), [], [], mon, c.nontrivial))
         ctx.count("local-process-studies")
+    S.install()
+    for k in range(500 if quick else 8000):
+        c = declared_gating_case(ctx, k)
+        if c is not None:
+            extra.append(c)
+            ctx.count("declared-gating:" + ("gap" if c.data["gaps"] else "closed"))
+        if k % 40 == 39:
+            shutil.rmtree(os.path.join(ctx.scratch, "st"), ignore_errors=True)
     S.install()
     cases = cases + extra
     diffs = compare([c for c in cases if c.lines])
